@@ -116,14 +116,31 @@ static string deliver_result(const vector<uint8_t> *pkt, const DmxBuffer &rx, in
   return r;
 }
 
+
+// A transmit buffer with history: the block first holds `dirty` (a longer, earlier frame), then the
+// frame is Set() over it, so the bytes beyond the frame's length in the 512-byte block are stale.
+static void tx_fill(DmxBuffer *tx, const vector<uint8_t> &f, const vector<uint8_t> *dirty) {
+  uint8_t dummy = 0;
+  if (dirty) {
+    if (!dirty->empty()) tx->Set(dirty->data(), dirty->size());
+  } else {
+    // default history: a full frame without three equal neighbours, derived from the frame
+    uint8_t pat[512];
+    for (unsigned k = 0; k < 512; k++) pat[k] = static_cast<uint8_t>((f.empty() ? 0x5a : f[0]) + 1 + k * 37);
+    tx->Set(pat, 512);
+  }
+  tx->Set(f.empty() ? &dummy : f.data(), f.size());
+}
+
 // ---------------------------------------------------------------- RLE
 static string do_enc(const vector<string> &a) {
   // enc <cap> <frame>
   unsigned cap = vh::num(a[1]);
-  vector<uint8_t> f = vh::unhex(a[2]);
+  bool has_dirty = a[0] == "encd";
+  vector<uint8_t> dirty = has_dirty ? vh::unhex(a[2]) : vector<uint8_t>();
+  vector<uint8_t> f = vh::unhex(has_dirty ? a[3] : a[2]);
   DmxBuffer src;
-  uint8_t dummy = 0;
-  src.Set(f.empty() ? &dummy : f.data(), f.size());
+  tx_fill(&src, f, &dirty);
   ola::dmx::RunLengthEncoder enc;
   // exact-size heap block: a write beyond `cap` is an ASan heap-buffer-overflow
   uint8_t *out = new uint8_t[cap];
@@ -166,8 +183,11 @@ static string do_sn(const vector<string> &a) {
   // sn <universe> <hu> <old> <seq> <name> <frame>
   using ola::plugin::shownet::ShowNetNode;
   unsigned universe = vh::num(a[1]), hu = vh::num(a[2]);
-  vector<uint8_t> name = vh::unhex(a[5]), f = vh::unhex(a[6]);
-  DmxBuffer tx(f.data(), f.size()), rx;
+  bool has_dirty = a[0] == "snd";
+  vector<uint8_t> name = vh::unhex(a[5]), f = vh::unhex(has_dirty ? a[7] : a[6]);
+  vector<uint8_t> dirty = has_dirty ? vh::unhex(a[6]) : vector<uint8_t>();
+  DmxBuffer tx, rx;
+  tx_fill(&tx, f, has_dirty ? &dirty : NULL);
   buf_init(&rx, a[3]);
   ShowNetNode node("");
   node.m_interface = iface();
@@ -191,7 +211,8 @@ static string do_sa(const vector<string> &a) {
   // sa <group> <universe> <port> <hg> <hu> <old> <frame>
   using ola::plugin::sandnet::SandNetNode;
   vector<uint8_t> f = vh::unhex(a[7]);
-  DmxBuffer tx(f.data(), f.size()), rx;
+  DmxBuffer tx, rx;
+  tx_fill(&tx, f, NULL);
   buf_init(&rx, a[6]);
   SandNetNode node("");
   node.m_interface = iface();
@@ -219,8 +240,8 @@ static string do_es(const vector<string> &a) {
   // es <universe> <hu> <old> <frame>
   using ola::plugin::espnet::EspNetNode;
   vector<uint8_t> f = vh::unhex(a[4]);
-  uint8_t dummy = 0;
-  DmxBuffer tx(f.empty() ? &dummy : f.data(), f.size()), rx;
+  DmxBuffer tx, rx;
+  tx_fill(&tx, f, NULL);
   buf_init(&rx, a[3]);
   EspNetNode node("");
   node.m_interface = iface();
@@ -241,7 +262,8 @@ static string do_pp(const vector<string> &a) {
   // pp <universe> <hu> <old> <device_id> <seq> <frame>
   using ola::plugin::pathport::PathportNode;
   vector<uint8_t> f = vh::unhex(a[6]);
-  DmxBuffer tx(f.data(), f.size()), rx;
+  DmxBuffer tx, rx;
+  tx_fill(&tx, f, NULL);
   buf_init(&rx, a[3]);
   PathportNode node("", vh::num(a[4]), 0);
   node.m_interface = iface();
@@ -277,8 +299,8 @@ static string do_an(const vector<string> &a) {
   using ola::plugin::artnet::ArtNetNode;
   using ola::plugin::artnet::ArtNetNodeOptions;
   vector<uint8_t> f = vh::unhex(a[8]);
-  uint8_t dummy = 0;
-  DmxBuffer tx(f.empty() ? &dummy : f.data(), f.size()), rx;
+  DmxBuffer tx, rx;
+  tx_fill(&tx, f, NULL);
   buf_init(&rx, a[6]);
   ola::io::SelectServer ss;
   ArtNetNodeOptions opts;
@@ -306,13 +328,66 @@ static string do_an(const vector<string> &a) {
   return deliver_result(&pkt, rx, before, vh::hex(e));
 }
 
+// Art-Net with separate sender and receiver nodes and a varied configuration history
+static void an_config(ola::plugin::artnet::ArtNetNode *n, unsigned perm, unsigned net, unsigned sub,
+                      int in_port, unsigned in_uni, int out_port, unsigned out_uni) {
+  static const int order[6][3] = {{0, 1, 2}, {0, 2, 1}, {1, 0, 2}, {1, 2, 0}, {2, 0, 1}, {2, 1, 0}};
+  for (int k = 0; k < 3; k++) {
+    switch (order[perm % 6][k]) {
+      case 0: n->SetNetAddress(net); break;
+      case 1: n->SetSubnetAddress(sub); break;
+      default:
+        if (in_port >= 0) n->SetInputPortUniverse(in_port, in_uni);
+        if (out_port >= 0) n->SetOutputPortUniverse(out_port, out_uni);
+    }
+  }
+}
+
+static string do_an2(const vector<string> &a) {
+  // an2 <rx_input_ports> <order> <net> <subnet> <uni> <port_id> <huni> <old> <pre> <frame>
+  using ola::plugin::artnet::ArtNetNode;
+  using ola::plugin::artnet::ArtNetNodeOptions;
+  vector<uint8_t> f = vh::unhex(a[10]);
+  DmxBuffer tx, rx;
+  tx_fill(&tx, f, NULL);
+  buf_init(&rx, a[8]);
+  ola::io::SelectServer ss;
+  unsigned order = vh::num(a[2]), net = vh::num(a[3]), sub = vh::num(a[4]);
+  unsigned port = vh::num(a[6]);
+  ArtNetNodeOptions topts, ropts;
+  topts.always_broadcast = true;
+  ropts.input_port_count = vh::num(a[1]);
+  ArtNetNode txn(iface(), &ss, topts, new CapSocket());
+  ArtNetNode rxn(iface(), &ss, ropts, new CapSocket());
+  bool start_first = (order / 6) % 2;
+  unsigned out_port = (order / 12) % 4;
+  if (start_first) { if (!txn.Start() || !rxn.Start()) return "pkt=none;start=0"; }
+  an_config(&txn, order + 1, net, sub, port, vh::num(a[5]), -1, 0);
+  rxn.SetDMXHandler(out_port, &rx, ola::NewCallback(&on_data));
+  an_config(&rxn, order, net, sub, -1, 0, out_port, vh::num(a[7]));
+  if (!start_first) { if (!txn.Start() || !rxn.Start()) return "pkt=none;start=0"; }
+  const uint8_t two[2] = {1, 2};
+  DmxBuffer pre(two, 2);
+  for (unsigned k = 0; k < vh::num(a[9]); k++) txn.SendDMX(port, pre);
+  g_sent.clear();
+  bool sent = txn.SendDMX(port, tx);
+  if (!sent || g_sent.size() != 1) return "pkt=none;sent=" + vh::str(g_sent.size());
+  vector<uint8_t> pkt = g_sent[0];
+  int before = g_calls;
+  g_rx = pkt; g_rx_valid = true; set_source();
+  rxn.m_impl.SocketReady();
+  vector<uint8_t> e = f;
+  if (e.size() & 1) e.push_back(0);
+  return deliver_result(&pkt, rx, before, vh::hex(e));
+}
+
 // ---------------------------------------------------------------- E1.31
 static string do_e1(const vector<string> &a) {
   // e1 <rev2> <universe> <hu> <old> <pre> <priority> <preview> <name> <frame>
   using ola::acn::E131Node;
   vector<uint8_t> name = vh::unhex(a[8]), f = vh::unhex(a[9]);
-  uint8_t dummy = 0;
-  DmxBuffer tx(f.empty() ? &dummy : f.data(), f.size()), rx;
+  DmxBuffer tx, rx;
+  tx_fill(&tx, f, NULL);
   buf_init(&rx, a[4]);
   ola::io::SelectServer ss;
   E131Node::Options opts;
@@ -343,6 +418,9 @@ static string handle(const string &p) {
   vector<string> a = vh::split(p);
   const string &op = a[0];
   if (op == "enc" && a.size() == 3) return do_enc(a);
+  if (op == "encd" && a.size() == 4) return do_enc(a);
+  if (op == "snd" && a.size() == 8) return do_sn(a);
+  if (op == "an2" && a.size() == 11) return do_an2(a);
   if (op == "dec" && a.size() == 4) return do_dec(a);
   if (op == "sn" && a.size() == 7) return do_sn(a);
   if (op == "sa" && a.size() == 8) return do_sa(a);
